@@ -152,11 +152,13 @@ def part_tok(tok):
         return True
     if len(tok) < 3:
         return P == 0
+    if ALPHA:
+        return any(tok[2] == ALPHA[k] for k in range(P, len(ALPHA), NP))   # NP <= len(ALPHA): no part is empty
     return ord(tok[2]) % NP == P
 
 
 def dom_token(tok):
-    return len(tok) <= N and in_alphabet(tok) and part_tok(tok)
+    return len(tok) <= N and part_tok(tok) and in_alphabet(tok)
 
 
 def _argv1(tok, first):
@@ -280,11 +282,11 @@ LONG = ['flag', 'dump', 'output', 'dump-prefix'] + OPTIONNAMES
 
 
 def dom_value(k, val):
-    if not (0 <= k < len(LONG) and len(val) <= N and in_alphabet(val)):
+    if not (0 <= k < len(LONG) and len(val) <= N):
         return False
-    if NP > 1:
-        return k % NP == P
-    return True
+    if NP > 1 and k % NP != P:
+        return False
+    return in_alphabet(val)
 
 
 def _value_argv(k, val):
@@ -400,10 +402,10 @@ def _arrange(a, b, filepos):
 def dom_order(i, j, filepos):
     if not (0 <= i < len(OPTS) and 0 <= j < len(OPTS) and 0 <= filepos <= 2):
         return False
+    if NP > 1 and (i + j) % NP != P:    # case split first: indexing OPTS makes CrossHair pick concrete i, j
+        return False
     if OPTS[i][0] == OPTS[j][0]:
         return False                    # the same option twice: last one wins, legitimately order dependent
-    if NP > 1:
-        return i % NP == P
     return True
 
 
@@ -426,7 +428,7 @@ def _filepos_ok(i, j):
 
 def argv_order(i: int, j: int, filepos: int) -> bool:
     """
-    pre: dom_order(i, j, filepos)
+    pre: i < j and dom_order(i, j, filepos)
     post: _
     """
     return _order_ok(i, j, filepos)
@@ -434,7 +436,7 @@ def argv_order(i: int, j: int, filepos: int) -> bool:
 
 def argv_order__reach(i: int, j: int, filepos: int) -> bool:
     """
-    pre: dom_order(i, j, filepos)
+    pre: i < j and dom_order(i, j, filepos)
     post: not _
     """
     return _order_ok(i, j, filepos) and filepos == 1
@@ -442,7 +444,7 @@ def argv_order__reach(i: int, j: int, filepos: int) -> bool:
 
 def argv_order__in_output(i: int, j: int, filepos: int) -> bool:
     """
-    pre: dom_order(i, j, filepos) and has_output_opt(i, j)
+    pre: i < j and dom_order(i, j, filepos) and has_output_opt(i, j)
     post: _
     """
     return _order_ok(i, j, filepos)
@@ -450,10 +452,18 @@ def argv_order__in_output(i: int, j: int, filepos: int) -> bool:
 
 def argv_order__excl(i: int, j: int, filepos: int) -> bool:
     """
-    pre: dom_order(i, j, filepos) and not has_output_opt(i, j)
+    pre: i < j and dom_order(i, j, filepos) and not has_output_opt(i, j)
     post: _
     """
     return _order_ok(i, j, filepos)
+
+
+def argv_order__excl__reach(i: int, j: int, filepos: int) -> bool:
+    """
+    pre: i < j and dom_order(i, j, filepos) and not has_output_opt(i, j)
+    post: not _
+    """
+    return _order_ok(i, j, filepos) and filepos == 1
 
 
 def argv_order__explain(i, j, filepos):
@@ -501,6 +511,14 @@ def argv_filepos__excl(i: int, j: int) -> bool:
     return _filepos_ok(i, j)
 
 
+def argv_filepos__excl__reach(i: int, j: int) -> bool:
+    """
+    pre: dom_order(i, j, 0) and not has_output_opt(i, j)
+    post: not _
+    """
+    return _filepos_ok(i, j)
+
+
 def argv_filepos__explain(i, j):
     a, b = OPTS[i][1], OPTS[j][1]
     d = {'has_output_option': has_output_opt(i, j)}
@@ -519,8 +537,8 @@ HARNESSES = {
     'C19/argv/option_value': dict(fn='argv_value', reach=['argv_value__reach'], excl='argv_value__excl',
                                   regions=[('argv_value__in_split', 'C19-flag-value-split-valueerror'),
                                            ('argv_value__in_dump', 'C19-dump-valueerror')]),
-    'C19/argv/option_order': dict(fn='argv_order', reach=['argv_order__reach'], excl='argv_order__excl',
+    'C19/argv/option_order': dict(fn='argv_order', reach=['argv_order__reach', 'argv_order__excl__reach'], excl='argv_order__excl',
                                   regions=[('argv_order__in_output', 'C19-output-option-before-file-ignored')]),
-    'C19/argv/file_position': dict(fn='argv_filepos', reach=['argv_filepos__reach'], excl='argv_filepos__excl',
+    'C19/argv/file_position': dict(fn='argv_filepos', reach=['argv_filepos__reach', 'argv_filepos__excl__reach'], excl='argv_filepos__excl',
                                    regions=[('argv_filepos__in_output', 'C19-output-option-before-file-ignored')]),
 }
